@@ -29,18 +29,20 @@ DRIVERS = ["C19"]
 LEVEL = "proof"
 MANIFEST = {
     "category": "proof",
-    "text": ("Lean 4 theorems about an executable model of databoxes/_exports.py, _imports.py, main.py, _merge.py and dataslates: "
-             "for every well-formed databox (any number of series of any mix of frequencies incl. integer and empty series, any "
-             "number of variants, any NaN pattern; names non-empty, not `*`, not starting with `__`, distinct) importing the exported "
-             "grid returns exactly the series part (names grouped by frequency in file order, descriptions when the row is on, "
-             "frequency, start, length, NaN mask, cell tokens), for every cell codec whose parse inverts its print; scalars and lists "
-             "are not exported; a dataslate built on a span returns the input cells on the span (variant v reads column min(v, k-1)), "
-             "NaN for absent names, and differs only where a declared fallback (NaN cells) or overwrite (all cells) applies; every "
-             "databox operation (rename, remove, keep, copy, overlay, underlay, clip, prepend, merge) and every sequence of them "
-             "leaves all names outside the operation's selected set untouched, in their order. The model is tied to the code on every "
-             "run by exact comparison of the parsed CSV grid, the re-imported databox, dataslate arrays and one-step databox "
-             "operations (symbolic series terms evaluated with the real Series methods), plus independent oracles on the real "
-             "objects that supply the replay."),
+    "text": ("Lean 4 theorems about an executable model of databoxes/_exports.py, _imports.py, main.py, _merge.py and dataslates, for "
+             "arbitrary numbers of blocks, series, variants, rows and operations. CSV (partial): on what the exporter writes for any "
+             "list of frequency blocks with admissible names (non-empty, not `*`, not starting with `__`) the importer's block iterator "
+             "recovers exactly the blocks (frequency, date column, width) and its column iterator every series (first column, variant "
+             "count, name, description -- descriptions unrestricted); a trimmed series padded to the block's common span trims back to "
+             "its own start and rows; scalars and lists are not exported; the assembled statement import(export db) = series part of db "
+             "is stated but its assembly through the zipped rows is not proved (covered by exact correspondence on real files). "
+             "Dataslate: the record of a selected series is its own column min(v, k-1) on the span, NaN for absent names, other "
+             "frequencies are rejected, fallbacks change NaN cells only, overwrites all cells, only for declared names, clipping keeps "
+             "exactly the base columns. Databox operations (rename, remove, keep, copy, overlay, underlay, clip, prepend, merge): every "
+             "operation and every sequence of operations (induction) leaves all entries outside the operations' selected names "
+             "identical and in order. The model is tied to the code on every run by exact comparison of the parsed CSV grid, the "
+             "re-imported databox, dataslate arrays and one-step databox operations (symbolic series terms evaluated with the real "
+             "Series methods), plus independent oracles on the real objects that supply the replay."),
     "design": "7/C19",
     "note": ("repr(float), numpy.round, numpy.genfromtxt, csv quoting and Period.from_sdmx_string are runtime facts: observed on "
              "every generated case, not proved; the series-level semantics of overlay/underlay/clip/hstack are property C10's."),
@@ -1222,11 +1224,11 @@ def run(ctx: Ctx):
     for payload in corpus_cases():
         run_case(ctx, payload.get("case", payload))
     run_csv_cases(ctx, fixed_csv_cases(), stream="csv-fixed")
-    run_csv_cases(ctx, gen_csv_cases(ctx, ctx.n(500, 4000)))
+    run_csv_cases(ctx, gen_csv_cases(ctx, ctx.n(500, 12000)))
     rng = ctx.rng.fork("slate")
-    run_slate_cases(ctx, [gen_slate_case(rng.fork(i)) for i in range(ctx.n(700, 5000))])
-    run_ext_cases(ctx, ctx.n(200, 1500))
-    run_op_sequences(ctx, ctx.n(500, 4000))
+    run_slate_cases(ctx, [gen_slate_case(rng.fork(i)) for i in range(ctx.n(700, 15000))])
+    run_ext_cases(ctx, ctx.n(200, 3000))
+    run_op_sequences(ctx, ctx.n(500, 12000))
 
 
 def search(ctx: Ctx, seeds):
